@@ -639,6 +639,13 @@ fn states() -> Vec<(&'static str, Box<dyn Fn() -> Result<World, String>>)> {
             Op::AspaSet { ca: c(), customer: 65000, providers: vec![65001] },
             Op::Entitle { parent: "parent".into(), child: c(), res: r3("AS65000", "10.0.0.0/16", "") },
         ]))),
+        // the customer / router AS of an existing definition is no longer held
+        ("configured-then-as-lost", Box::new(move || with(100, 90, vec![
+            Op::Roa { ca: c(), add: vec![c01::ROA_A.into()], del: vec![] },
+            Op::AspaSet { ca: c(), customer: 65000, providers: vec![65001] },
+            Op::BgpsecAdd { ca: c(), asn: 65000, csr: 0 },
+            Op::Entitle { parent: "parent".into(), child: c(), res: r3("AS65001-AS65005", "10.0.0.0/15", "2001:db8::/48") },
+        ]))),
         ("aggregated", Box::new(move || with(2, 2, vec![
             Op::Roa { ca: c(), add: vec![c01::ROA_A.into(), c01::ROA_B.into(), c01::ROA_C.into()], del: vec![] },
         ]))),
@@ -742,14 +749,14 @@ pub fn run(tier: &Tier, _args: &[String]) -> i32 {
             }
         }
     }
-    let distinct = reqs.len() as u64 * 5;
+    let distinct = reqs.len() as u64 * 6;
     out.coverage = json!({
         "evaluations": evaluations,
         "distinct_nontrivial": distinct,
-        "states": 5,
+        "states": 6,
         "transitions": evaluations,
         "traces_validated_against_impl": evaluations,
-        "rule": "every request of the finite menus (ROA deltas = all multisets of <=2 (quick) / <=3 (thorough) entries out of 11 additions and 3 removals; ASPA set/delete/provider updates; BGPsec add (valid and corrupted CSR)/delete; child add/update with 6 resource sets x 2 handles) x 5 CA states (empty, configured, configured-then-shrunk, aggregated, rolling); each executed on a forked copy; non-trivial = every case (each has an accept/refuse expectation and a before/after comparison)",
+        "rule": "every request of the finite menus (ROA deltas = all multisets of <=2 (quick) / <=3 (thorough) entries out of 11 additions and 3 removals; ASPA set/delete/provider updates; BGPsec add (valid and corrupted CSR)/delete; child add/update with 6 resource sets x 2 handles) x 6 CA states (empty, configured, configured-then-shrunk, configured-then-AS-lost, aggregated, rolling); each executed on a forked copy; non-trivial = every case (each has an accept/refuse expectation and a before/after comparison)",
         "samples": samples,
         "exhaustive": true,
         "outcomes": outcomes,
